@@ -34,8 +34,11 @@ def gen_string(rng):
     if r < 0.65:
         esc = rng.choice(["", "\\n", "\\t", "\\\"", "\\\\", "\\u{1F600}", "\\r", "\\\n   cont"])
         return '"%s%s"' % (body.replace('"', "").replace("\\", "\\\\"), esc)
-    if r < 0.75:
+    if r < 0.70:
         return "'''\n    %s\n      more\n  '''" % body.replace("'", "")
+    if r < 0.75:
+        # triple-quoted literals written on one line: their own quote character inside, leading blanks, nothing at all
+        return rng.choice(["'''it's here'''", '"""say "hi" twice"""', "'''   padded'''", '"""  two  """', "''''''", '"""a\\tb"""', "'''a '' b'''"])
     if r < 0.85:
         return '"""\n  %s\\n\n  z"""' % body.replace('"', "").replace("\\", "\\\\")
     if r < 0.95:
